@@ -437,7 +437,7 @@ func c16Gen(rng *rand.Rand, tier string) []Case {
 	// random histories
 	nr := 12
 	if tier == "thorough" {
-		nr = 250
+		nr = 120
 	}
 	for _, c := range cfgs {
 		for i := 0; i < nr; i++ {
